@@ -20,6 +20,7 @@ inductive Err
   | shape | axis | cast | conversion | activation | invalidTensor | model
   | unsupportedOp | unsupportedOpset | invalidType | gorgonia | other
   | panic   -- a Go panic is an explicit outcome of the model
+  | unmodelled   -- a corner of third-party behaviour the model deliberately does not describe
 deriving Repr, BEq, DecidableEq, Inhabited
 
 abbrev Res := Except Err
